@@ -67,7 +67,7 @@ def universe(seed, uid, opts=None):
     if uid == 9400:
         return idhref_ir()
     rng = core.rng_for(seed, PROP, 'uni%d' % uid)
-    return gen.rand_universe(rng, opts or gen.Opts(id_href_attrs=True, sub_names=True, digits=True, self_refs=True, null_items=True, bare_prims=True), uid=uid)
+    return gen.rand_universe(rng, opts or gen.Opts(id_href_attrs=True, sub_names=True, digits=True, self_refs=True, null_items=True, bare_prims=True, cross_ns_inheritance=True), uid=uid)
 
 
 def universe_h(seed, uid):
